@@ -19,7 +19,8 @@
    VModel.gen_map by its position in the list of all output names ([idx_of]: equal key <-> equal string).
    Regular expressions are the parameter [rx] (pattern -> does not compile | matcher), exactly as in Seq/Fmt.v:
    the same Go library compiles the --filter pattern and the patterns inside a format string.
-   Every panic of the Go code is an explicit outcome.  Outside: the title line, kingpin itself. *)
+   Every panic of the Go code is an explicit outcome.  Outside: the title line itself (its format string is inside:
+   the check of 8952ebf), kingpin itself. *)
 From Coq Require Import String Ascii List NArith Bool Arith.
 Import ListNotations.
 Require Import Verif.Seq.Fmt Verif.Ints.IntsModel Verif.Ints.VModel.
@@ -99,6 +100,12 @@ Inductive cpanic := PFormat (k:fpanic)     (* FormatParser.Parse panicked on --o
 Inductive cres (A:Type) := COk (x:A) | CPanicked (k:cpanic).
 Arguments COk {A}. Arguments CPanicked {A}.
 
+(* GenerateIntegrations as a whole: an error return (the format check), or what the loop does *)
+Inductive gres (A:Type) := GFormatError | GRan (r:cres A).
+Arguments GFormatError {A}. Arguments GRan {A}.
+(* the format strings of the project application and the -t flag *)
+Record pformats := { pf_appfmt : string; pf_epfmt : string; pf_title_attr : string; pf_title_cli : string }.
+
 Fixpoint idx_of (s:string) (l:list string) : N :=
   match l with [] => 0%N | x :: r => if String.eqb s x then 0%N else (1 + idx_of s r)%N end.
 
@@ -140,8 +147,8 @@ Section Cmd.
     end.
   Definition pviews_of (c:cli) (l:list (proj_ep * string * bool)) : list pview := map (pview_of c (outs_of l)) l.
 
-  (* GenerateIntegrations: the result map, output name -> diagram *)
-  Definition gen_integrations (m:module) (vi:vinfo) (k:bool) (fuel:nat) (c:cli) (eps:list proj_ep)
+  (* GenerateIntegrations from the endpoint loop on: the result map, output name -> diagram *)
+  Definition cmd_views (m:module) (vi:vinfo) (k:bool) (fuel:nat) (c:cli) (eps:list proj_ep)
     : cres (list (string * option (list ev))) :=
     match name_views c eps with
     | CPanicked p => CPanicked p
@@ -150,12 +157,29 @@ Section Cmd.
                  (generate_integrations m vi k (eff_exclude c) fuel (pviews_of c l)))
     end.
 
+  (* since 8952ebf: right after the parser of --output is built, the three format strings that the views will read
+     from the PROJECT APPLICATION are tried with FormatParser.Check (a Parse with no values under recover) and the
+     first one the parser refuses is the command's error - before --output is expanded, before --filter is
+     compiled, whether or not the project has an endpoint (or exists: nil-safe getters give the defaults).
+       getAppfmtAttrOrDefault(app)            attribute appfmt, "%(appname)" when empty
+       getEpfmtAttr(app)                      attribute epfmt
+       getTitleFormat(app, intgenParams.Title) attribute title, the -t flag when empty *)
+  Definition fmt_checks (self:string) : bool := match parse rx self [] with POk _ => true | _ => false end.
+  Definition formats_of (pf:pformats) : list string :=
+    [ (if String.eqb (pf_appfmt pf) EmptyString then "%(appname)" else pf_appfmt pf);
+      pf_epfmt pf;
+      (if String.eqb (pf_title_attr pf) EmptyString then pf_title_cli pf else pf_title_attr pf) ].
+  Definition gen_integrations (m:module) (vi:vinfo) (k:bool) (fuel:nat) (c:cli) (pf:pformats) (eps:list proj_ep)
+    : gres (list (string * option (list ev))) :=
+    if forallb fmt_checks (formats_of pf) then GRan (cmd_views m vi k fuel c eps) else GFormatError.
+
   (* Execute: the files written (name, diagram) and whether the command reports an error *)
-  Inductive xres := XPanic (k:cpanic) | XDone (files:list (string * option (list ev))) (err:bool).
-  Definition execute (m:module) (vi:vinfo) (k:bool) (fuel:nat) (e:env) (c:cli) (eps:list proj_ep) (order:list string) : xres :=
-    match gen_integrations m vi k fuel c eps with
-    | CPanicked p => XPanic p
-    | COk r =>
+  Inductive xres := XPanic (k:cpanic) | XFormatError | XDone (files:list (string * option (list ev))) (err:bool).
+  Definition execute (m:module) (vi:vinfo) (k:bool) (fuel:nat) (e:env) (c:cli) (pf:pformats) (eps:list proj_ep) (order:list string) : xres :=
+    match gen_integrations m vi k fuel c pf eps with
+    | GFormatError => XFormatError
+    | GRan (CPanicked p) => XPanic p
+    | GRan (COk r) =>
         let (w, err) := write_all (out_ok e) order in
         XDone (map (fun o => (o, match sassoc o r with Some x => x | None => None end)) w) err
     end.
